@@ -75,7 +75,7 @@ package vector
 
 //@ func vector.Index
 //@   nowrite
-//@   props C06
+//@   props C06 C14
 //@   pure
 //@   skip type-assert
 //@   requires [wf] 0 <= v.count && v.count < 4611686018427387904 && len(v.tail) == v.count - tsize(v.count) && v.root != nil
@@ -86,7 +86,7 @@ package vector
 //@   ensures !ok ==> val == nil
 
 //@ func vector.Assoc
-//@   props C06
+//@   props C06 C14
 //@   nowrite
 //@   pure
 //@   nosafety
@@ -98,7 +98,7 @@ package vector
 
 //@ func vector.SubVector
 //@   nowrite
-//@   props C06
+//@   props C06 C14
 //@   pure
 //@   results r
 //@   requires [wf] 0 <= v.count
@@ -120,7 +120,7 @@ package vector
 
 //@ func subVector.Index
 //@   nowrite
-//@   props C06
+//@   props C06 C14
 //@   pure
 //@   results val ok
 //@   requires swf(s)
@@ -131,7 +131,7 @@ package vector
 
 //@ func subVector.SubVector
 //@   nowrite
-//@   props C06
+//@   props C06 C14
 //@   pure
 //@   results r
 //@   requires swf(s)
@@ -140,7 +140,7 @@ package vector
 
 //@ func subVector.Assoc
 //@   nowrite
-//@   props C06
+//@   props C06 C14
 //@   pure
 //@   results r
 //@   requires swf(s)
@@ -150,7 +150,7 @@ package vector
 
 //@ func subVector.Conj
 //@   nowrite
-//@   props C06
+//@   props C06 C14
 //@   pure
 //@   results r
 //@   requires swf(s)
@@ -159,7 +159,7 @@ package vector
 
 //@ func subVector.Pop
 //@   nowrite
-//@   props C06
+//@   props C06 C14
 //@   pure
 //@   results r
 //@   requires swf(s)
@@ -175,57 +175,57 @@ package vector
 // these obligations: nosafety.)
 
 //@ func newNode
-//@   props C06
+//@   props C06 C14
 //@   nowrite
 //@   ensures fresh(result)
 
 //@ func clone
-//@   props C06
+//@   props C06 C14
 //@   nosafety
 //@   nowrite
 //@   ensures fresh(result)
 
 //@ func nodeFromSlice
-//@   props C06
+//@   props C06 C14
 //@   nosafety
 //@   nowrite
 //@   ensures fresh(result)
 
 //@ func doAssoc
-//@   props C06
+//@   props C06 C14
 //@   nosafety
 //@   nowrite
 //@   ensures fresh(result)
 
 //@ func newPath
-//@   props C06
+//@   props C06 C14
 //@   nosafety
 //@   nowrite
 
 //@ func vector.pushTail
-//@   props C06
+//@   props C06 C14
 //@   nosafety
 //@   nowrite
 
 //@ func vector.popTail
-//@   props C06
+//@   props C06 C14
 //@   nosafety
 //@   nowrite
 
 //@ func vector.sliceFor
-//@   props C06
+//@   props C06 C14
 //@   nosafety
 //@   nowrite
 //@   requires [wf] 0 <= v.count && v.count < 4611686018427387904
 
 //@ func vector.Conj
-//@   props C06
+//@   props C06 C14
 //@   nosafety
 //@   nowrite
 //@   requires [wf] 0 <= v.count && v.count < 4611686018427387904
 
 //@ func vector.Pop
-//@   props C06
+//@   props C06 C14
 //@   nosafety
 //@   nowrite
 //@   requires [wf] 0 <= v.count && v.count < 4611686018427387904
